@@ -77,7 +77,7 @@ def run_job(mod_name, job, idx, root, timeout):
     env = dict(os.environ)
     env["PYTHONHASHSEED"] = str(job.get("hashseed", 0))
     env["INFRETIS_VERIF"] = "1"
-    env["PYTHONPATH"] = "/repo:" + HERE
+    env["PYTHONPATH"] = os.environ.get("VERIF_REPO", "/repo") + ":" + HERE
     cmd = [sys.executable, "-m", "vf.worker", mod_name, jf, of, jdir]
     t0 = time.time()
     try:
